@@ -724,3 +724,72 @@ theorem surgery_order_disp (l ms ds : List Cmd) (g d : Cmd) (out : List Cmd) (q 
   · exact absurd h hbm
 
 end SFV.GC
+
+/-! ### gaussian_merge: the cancelling case (nothing is emitted) -/
+namespace SFV.GC
+
+/-- edges leaving the merged commands -/
+def exitEdges (l ms : List Cmd) : List (Cmd × Cmd) :=
+  (dagEdges l).filter fun e => ms.contains e.1 && !ms.contains e.2
+
+/-- the relation carried along a wire's row when the merged commands are removed without replacement:
+two staying commands are ordered in `out`; a staying command before a merged one is before every target of an
+exit edge; a staying command after a merged one is at or after some target of an exit edge -/
+def NR (l ms out : List Cmd) (x y : Cmd) : Prop :=
+  if x ∈ ms then (if y ∈ ms then True else ∃ q ∈ exitEdges l ms, out.idxOf q.2 ≤ out.idxOf y)
+  else (if y ∈ ms then ∀ q ∈ exitEdges l ms, out.idxOf x < out.idxOf q.2 else out.idxOf x < out.idxOf y)
+
+theorem NR_trans {l ms out : List Cmd} {x y z : Cmd} (h1 : NR l ms out x y) (h2 : NR l ms out y z) :
+    NR l ms out x z := by
+  unfold NR at *
+  by_cases hx : x ∈ ms <;> by_cases hy : y ∈ ms <;> by_cases hz : z ∈ ms <;>
+    simp only [hx, hy, hz, if_true, if_false] at h1 h2 ⊢
+  · exact h2
+  · obtain ⟨q, hq, h⟩ := h1
+    exact ⟨q, hq, by omega⟩
+  · intro q hq
+    exact h1 q hq
+  · obtain ⟨q, hq, h⟩ := h2
+    have := h1 q hq
+    omega
+  · intro q hq
+    have := h2 q hq
+    omega
+  · omega
+
+theorem row_NR (l ms out : List Cmd) (w : Nat)
+    (hcons : ∀ e ∈ consecPairs (gridRow l w), NR l ms out e.1 e.2) {a b : Cmd}
+    (hrow : Before (gridRow l w) a b) : NR l ms out a b := by
+  have hchain : List.IsChain (NR l ms out) (gridRow l w) := consecPairs_chain _ _ hcons
+  have : IsTrans Cmd (NR l ms out) := ⟨fun _ _ _ h1 h2 => NR_trans h1 h2⟩
+  have hpw : List.Pairwise (NR l ms out) (gridRow l w) := List.isChain_iff_pairwise.1 hchain
+  exact (List.pairwise_iff_forall_sublist.1 hpw) hrow
+
+/-- **the cancelling surgery keeps the order of the commands that stay**: in every list in which the edges of
+`surgeryEdgesNil` point forward (every topological sort of the graph after a cancelled block was removed), two
+staying commands that share a wire keep the order they have in the circuit. -/
+theorem surgeryNil_order (l ms out : List Cmd) (hf : forward (surgeryEdgesNil l ms) out = true)
+    {a b : Cmd} (hb : Before l a b) (hd : dep a b) (ha : a ∉ ms) (hbm : b ∉ ms) :
+    out.idxOf a < out.idxOf b := by
+  obtain ⟨w, hwa, hwb⟩ := hd
+  have hmem := before_mem hb
+  have key : NR l ms out a b := by
+    refine row_NR l ms out w ?_ (before_row hb hwa hwb)
+    intro e he
+    have hedge : e ∈ dagEdges l := row_edges_mem hmem.1 hwa e he
+    simp only [forward, List.all_eq_true, decide_eq_true_eq] at hf
+    unfold NR
+    by_cases h1 : e.1 ∈ ms <;> by_cases h2 : e.2 ∈ ms <;> simp only [h1, h2, if_true, if_false]
+    · refine ⟨e, ?_, Nat.le_refl _⟩
+      simp [exitEdges, hedge, h1, h2]
+    · intro q hq
+      refine hf (e.1, q.2) ?_
+      simp only [surgeryEdgesNil, List.mem_append, List.mem_flatMap, List.mem_map, List.mem_filter]
+      refine Or.inr ⟨e, ⟨hedge, by simp [h1, h2]⟩, q, ?_, rfl⟩
+      simpa [exitEdges] using hq
+    · refine hf e ?_
+      simp only [surgeryEdgesNil, List.mem_append, List.mem_filter]
+      exact Or.inl ⟨hedge, by simp [h1, h2]⟩
+  simpa [NR, ha, hbm] using key
+
+end SFV.GC
